@@ -990,7 +990,8 @@ class LogixDriver(CIPDriver):
             return_size = (
                 _tag_return_size(tag_data) + len(request.message) + 2
             )  # response overhead  # TODO make const
-            if return_size > self.connection_size:
+            # a reply that does not fit next to the multi-service overhead cannot be requested in a multi-service packet
+            if return_size + MULTISERVICE_READ_OVERHEAD > self.connection_size:
                 request = ReadTagFragmentedRequestPacket.from_request(self._sequence, request)
                 fragmented_requests.append(request)
             else:
@@ -1165,7 +1166,8 @@ class LogixDriver(CIPDriver):
                     continue
                 request.build_message()
 
-                req_size = len(request.message)
+                # a request that does not fit next to the multi-service overhead cannot be sent in a multi-service packet
+                req_size = len(request.message) + MULTISERVICE_READ_OVERHEAD
                 if req_size > self.connection_size:
                     request = WriteTagFragmentedRequestPacket.from_request(self._sequence, request)
                     fragmented_requests.append(request)
